@@ -294,6 +294,9 @@ class Runner(object):
                 entries.append((rng.choice([0, 1, 0o40755, 0x80000000, wire.M32]), rng.choice([0, 5, 0x7FFFFFFF, 0x80000000, wire.M32]), rng.getrandbits(32), name))
         plan = self.sim.sync_plan
         plan.lists[step["path"].encode()] = entries
+        if step.get("trailer"):
+            # the device goes on talking after DONE (one more WRTE), then closes: what came before the DONE is the listing
+            plan.list_trailer[step["path"].encode()] = bytes.fromhex(step["trailer"])
         if step.get("dies"):
             plan.die_on.add(step["path"].encode())
         if step.get("split"):
